@@ -15,7 +15,7 @@ Items == JsonDeserialize(IOEnv.VERIF_TRACES)
 
 \* the recorded tree is a list of [path, content]; the specification uses a function path -> content
 TreeFn(s) == [p \in {e.path : e \in ToSet(s)} |-> (CHOOSE e \in ToSet(s) : e.path = p).content]
-Norm(o) == [o EXCEPT !.tree = TreeFn(o.tree), !.more = [i \in DOMAIN o.more |-> [o.more[i] EXCEPT !.tree = TreeFn(o.more[i].tree)]]]
+Norm(o) == [o EXCEPT !.tree = TreeFn(o.tree), !.docker = [o.docker EXCEPT !.tree = TreeFn(o.docker.tree), !.compose.mounts = ToSet(o.docker.compose.mounts)], !.more = [i \in DOMAIN o.more |-> [o.more[i] EXCEPT !.tree = TreeFn(o.more[i].tree)]]]
 
 VARIABLES i
 TInit == i = 1 /\ inp = <<>> /\ out = <<>> /\ done = FALSE
